@@ -6,8 +6,8 @@ import RapidProofs.Replay
 
 namespace Rapid
 
-/-- the body `checkOnce` runs: the property followed by `failOnError` -/
-def bodyOf (p : Prog) : Prog := p >>- fun _ => .failOnError siteEndOfBody (.ret .nil)
+/-- the body `checkOnce` runs (`runProp`): the property itself -/
+def bodyOf (p : Prog) : Prog := p
 
 theorem checkOnce_def (p : Prog) (src : Src) (ts : TS) :
     checkOnce p src ts =
